@@ -1217,3 +1217,58 @@ Lemma c12_example :
    (Err OctErrNotEnoughData, oct_mk [128; 128; 128; 128; 16; 3; 65] 6, 0);
    (Ok (OVByte 65), oct_mk [128; 128; 128; 128; 16; 3; 65] 7, 0)].
 Proof. vm_compute. reflexivity. Qed.
+
+(* ---------------------------------------------------------------- which documented error each call can return *)
+Definition oct_err_allowed (op : oct_op) (e : oct_err) : Prop :=
+  match op with
+  | OpBool _ | OpByte _ | OpInt16 _ | OpInt32 _ | OpInt64 _ => e = OctErrNotEnoughData
+  | Op7Bit => e = OctErrNotEnoughData \/ e = OctErrBad7BitInt
+  | OpBytes | OpString => e = OctErrNotEnoughData \/ e = OctErrBad7BitInt \/ e = OctErrNegativeSize
+  | OpRead n => e = OctErrInvalidArgument /\ n = 0
+  end.
+
+Lemma v_7loop_errors iters : forall i num l e n a,
+  v_7loop iters i num l = (Err e, n, a) -> e = OctErrNotEnoughData \/ e = OctErrBad7BitInt.
+Proof.
+  induction iters as [|k IH]; intros i num l e n a H; destruct l as [|b l']; cbn [v_7loop] in H.
+  - inversion H; auto.
+  - destruct (b >? 15); inversion H; auto.
+  - inversion H; auto.
+  - destruct (b <=? 127); [discriminate|].
+    destruct (v_7loop k (i + 7) (dec7_step num b i) l') as [[r0 n0] a0] eqn:E.
+    inversion H; subst. eapply IH; eauto.
+Qed.
+
+Lemma v_bytes_errors v l e n a :
+  v_bytes v l = (Err e, n, a) ->
+  e = OctErrNotEnoughData \/ e = OctErrBad7BitInt \/ e = OctErrNegativeSize.
+Proof.
+  unfold v_bytes. intros H. destruct (v_7bit l) as [[r1 n1] a1] eqn:E7.
+  destruct r1 as [size|e1|]; [| |discriminate].
+  - destruct (size <? 0); [inversion H; auto|].
+    destruct (size =? 0); [discriminate|].
+    destruct (match v with OctOrig => false | OctFixed => _ end); [inversion H; auto|].
+    destruct (sext 32 _ =? size); [discriminate|inversion H; auto].
+  - inversion H; subst. apply v_7loop_errors in E7. tauto.
+Qed.
+
+Lemma view_map_err {A B} (f : A -> B) x e n a :
+  view_map f x = (Err e, n, a) -> x = (Err e, n, a).
+Proof. destruct x as [[[y|e0|] n0] a0]; cbn; intros H; inversion H; reflexivity. Qed.
+
+Lemma read_errors_lemma : forall v op s e s' a,
+  oct_wf s -> oct_op_ok op = true -> oct_read_op v op s = (Err e, s', a) -> oct_err_allowed op e.
+Proof.
+  intros v op s e s' a Hwf Hok H.
+  destruct (read_op_view _ _ _ _ _ _ Hwf Hok H) as (n & Hv & _). clear H.
+  destruct op as [?|?|?|?|?| | | |m]; cbn [v_op oct_err_allowed] in *; apply view_map_err in Hv.
+  - destruct (oct_rest s) as [|b l']; cbn in Hv; inversion Hv; reflexivity.
+  - destruct (oct_rest s) as [|b l']; cbn in Hv; inversion Hv; reflexivity.
+  - destruct (oct_rest s) as [|b0 [|b1 l']]; cbn in Hv; inversion Hv; reflexivity.
+  - destruct (oct_rest s) as [|b0 [|b1 [|b2 [|b3 l']]]]; cbn in Hv; inversion Hv; reflexivity.
+  - destruct (oct_rest s) as [|b0 [|b1 [|b2 [|b3 [|b4 [|b5 [|b6 [|b7 l']]]]]]]]; cbn in Hv; inversion Hv; reflexivity.
+  - eapply v_7loop_errors; exact Hv.
+  - eapply v_bytes_errors; exact Hv.
+  - eapply v_bytes_errors; exact Hv.
+  - unfold v_read in Hv. destruct (Z.eqb_spec m 0); inversion Hv; auto.
+Qed.
